@@ -354,6 +354,7 @@ def render_fragment(R, m, atoms, descriptors, style=None, slash=None, annot=None
             bs = bond_sym(u, v)
             if bs in ('/', '\\'):
                 out.append(('slash', bs, (u, v)))
+                info.setdefault('slashes', []).append((u, v, bs))
             elif bs:
                 out.append(('bond', bs, None))
         for k, v in enumerate(kids):
@@ -446,13 +447,13 @@ def build_cgsmiles(R, m, owner, kinds=('$', '><'), style=None, names=None, feats
         for i, pp in pos.items():
             posmap[i] = (names[f], pp)
         frs.append('#%s=%s' % (names[f], s))
-    feats.update(k for k, v in rinfo.items() if v)
+    feats.update(k for k, v in rinfo.items() if v and k != 'slashes')
     order = list(range(nfr))
     R.shuffle(order)
     frs_s = '{' + ','.join(frs[f] for f in order) + '}'
     base_s = write_base(R, base, names)
     return base_s + '.' + frs_s, dict(base=base, nfr=nfr, names=names, frag_block=frs_s, posmap=posmap,
-                                      base_s=base_s, frag_defs=frs)
+                                      base_s=base_s, frag_defs=frs, slashes=rinfo.get('slashes', []))
 
 
 def write_base(R, base, names, orders_sym=None, tokens=None):
